@@ -3,6 +3,7 @@ package main
 import (
 	"fmt"
 	"go/constant"
+	"go/token"
 	"go/types"
 	"sort"
 	"strings"
@@ -620,6 +621,7 @@ func ruleC18IndexContracts(c *Ctx) {
 	if f := reg["concat"]; f != nil {
 		c.Fn(c.P.funcKey(f))
 		var why []string
+		nullRendered := false
 		loops := rangeLoops(f)
 		if len(loops) != 1 || NewTB().Of(loops[0].over).Op != "param" {
 			why = append(why, "concat does not make a single in-order pass over its arguments")
@@ -632,6 +634,23 @@ func ruleC18IndexContracts(c *Ctx) {
 					continue
 				}
 				writes := 0
+				nilTested, isNil := false, false
+				for k, v := range p.Asg {
+					if x, isN := isNilTest(p.KeyTerm[k]); isN && elemOfLoop(x, lp) {
+						nilTested, isNil = true, isTrueC(v)
+					}
+				}
+				if !nilTested {
+					nullRendered = true
+				}
+				if nilTested && isNil {
+					for _, e := range p.Effects {
+						if e.Kind == "call" && strings.Contains(e.Callee, "Write") {
+							why = append(why, "a NULL argument is written")
+						}
+					}
+					continue
+				}
 				for _, e := range p.Effects {
 					if e.Kind == "call" && strings.Contains(e.Callee, "WriteString") {
 						writes++
@@ -647,6 +666,7 @@ func ruleC18IndexContracts(c *Ctx) {
 			}
 		}
 		c.Check(len(why) == 0, "c18.index-contracts", "registered:concat", c.P.Pos(f.Pos()), "each argument's %v text written once, in order", strings.Join(uniq(why), "; "))
+		c.Check(!nullRendered, "c18.index-contracts", "registered:concat/null", c.P.Pos(f.Pos()), "a NULL argument contributes nothing", "concat writes the %v text of every argument without testing it for NULL: a NULL argument is rendered as `<nil>` instead of contributing nothing")
 	}
 }
 
@@ -728,6 +748,43 @@ func ruleC18Selection(c *Ctx) {
 		}
 		if nT == 0 || nF == 0 {
 			why = append(why, fmt.Sprintf("paths: true=%d false=%d", nT, nF))
+		}
+		// a NULL condition: AsType[bool](NULL) is a nil pointer; every load of it is dominated by a non-nil test, and the
+		// nil path returns args[2]
+		allInstrs(f, func(b *ssa.BasicBlock, in ssa.Instruction) {
+			ld, ok := in.(*ssa.UnOp)
+			if !ok || ld.Op != token.MUL {
+				return
+			}
+			ex, ok := ld.X.(*ssa.Extract)
+			if !ok || ex.Index != 0 {
+				return
+			}
+			call, ok := ex.Tuple.(*ssa.Call)
+			if !ok || call.Common().StaticCallee() == nil || !strings.HasPrefix(call.Common().StaticCallee().Name(), "AsType[bool]") {
+				return
+			}
+			guarded := false
+			for _, fc := range relFacts(factsAt(b)) {
+				if fc.x == ssa.Value(ex) && fc.r == relNE {
+					if cst, isC := fc.y.(*ssa.Const); isC && cst.IsNil() {
+						guarded = true
+					}
+				}
+			}
+			if !guarded {
+				why = append(why, "the condition pointer is dereferenced without a nil test: IF(NULL, x, y) panics instead of returning y")
+			}
+		})
+		for _, p := range tb.SuccessPaths() {
+			for k, v := range p.Asg {
+				if x, isN := isNilTest(p.KeyTerm[k]); isN && isTrueC(v) && x.Op == "ext" && x.Name == "0" && strings.Contains(x.String(), "AsType[bool]") {
+					r := p.Ret[0]
+					if !r.Nil && !onlyArg(r.T, "2") {
+						why = append(why, "with a NULL condition, if returns "+avString(r)+" instead of args[2]")
+					}
+				}
+			}
 		}
 		c.Check(len(why) == 0, "c18.select-contracts", "registered:if", c.P.Pos(f.Pos()), "true => args[1], false => args[2]", strings.Join(uniq(why), "; "))
 	}
